@@ -72,7 +72,7 @@ func doReplay(o *Options, ob *Obligation, smtDir string, log *strings.Builder) b
 		return false
 	}
 	var lets []replayLet
-	var goLines, imports []string
+	var goLines, imports, topLines []string
 	letRe := regexp.MustCompile(`^let\s+([A-Za-z_][A-Za-z0-9_]*)(?:\[([a-z]+)\s*<\s*([A-Za-z_][A-Za-z0-9_]*)\])?\s*=\s*(.*)$`)
 	for _, l := range u.contract.Replay {
 		t := strings.TrimSpace(l)
@@ -89,6 +89,10 @@ func doReplay(o *Options, ob *Obligation, smtDir string, log *strings.Builder) b
 			lets = append(lets, replayLet{name: m[1], idxVar: m[2], bound: m[3], expr: e, src: m[4]})
 		case strings.HasPrefix(t, "import "):
 			imports = append(imports, t)
+		case strings.HasPrefix(t, "top:"):
+			if i := strings.Index(l, "top:"); i >= 0 {
+				topLines = append(topLines, l[i+4:])
+			}
 		case strings.HasPrefix(t, "go:"):
 			goLines = append(goLines, strings.TrimPrefix(strings.TrimPrefix(l, " "), "go:"))
 			if i := strings.Index(l, "go:"); i >= 0 {
@@ -241,6 +245,8 @@ import (
 
 var _ = fmt.Sprint
 
+%s
+
 func TestGovcReplay(t *testing.T) {
 	confirmed := ""
 	confirm := func(msg string) { confirmed = msg }
@@ -262,7 +268,7 @@ func TestGovcReplay(t *testing.T) {
 		fmt.Println("REPLAY-NOT-REPRODUCED")
 	}
 }
-`, pkgName, strings.Join(imports, "\n"), body, wantPanic)
+`, pkgName, strings.Join(imports, "\n"), strings.Join(topLines, "\n"), body, wantPanic)
 	pkgDir := filepath.Dir(u.prog.fset.Position(u.fn.Pos()).Filename)
 	tmp, err := os.MkdirTemp("/var/tmp", "govc-replay-")
 	if err != nil {
